@@ -91,7 +91,7 @@ type c02Env struct {
 }
 
 func c02Setup(ca *vCA, c c02Case) *c02Env {
-	e := &c02Env{permit: c.policy == "fp"}
+	e := &c02Env{permit: c.policy == "fp" || c.policy == "fpam"}
 	e.st = vNewMem()
 	e.iss = vNewIssuer("vi", ca)
 	e.rec = hsNewRec(e.st, e.iss)
@@ -113,7 +113,7 @@ func c02Setup(ca *vCA, c c02Case) *c02Env {
 	var od *OnDemandConfig
 	if c.policy != "off" {
 		od = &OnDemandConfig{}
-		if c.policy == "fp" || c.policy == "fd" {
+		if strings.HasPrefix(c.policy, "f") {
 			od.DecisionFunc = e.rec.Decision(func(string) bool { return e.permit })
 		}
 		if c.mgr != "" {
@@ -209,9 +209,12 @@ func c02Prepare(t *testing.T, ca *vCA, e *c02Env, c c02Case, hello *tls.ClientHe
 	}
 	// the implicit allow-list
 	switch c.policy {
-	case "ah":
+	// (with a decision function configured, the function decides — whatever the list of
+	// managed names says: "fdah" = function denies, name on the list; "fpam" = function permits,
+	// name not on it)
+	case "ah", "fdah":
 		e.cfg.OnDemand.hostAllowlist = map[string]struct{}{name: {}, "unrelated.example.org": {}}
-	case "am":
+	case "am", "fpam":
 		e.cfg.OnDemand.hostAllowlist = map[string]struct{}{"unrelated.example.org": {}}
 	case "ae":
 		e.cfg.OnDemand.hostAllowlist = map[string]struct{}{}
@@ -283,7 +286,7 @@ func c02Handshake(t *testing.T, o *vOut, e *c02Env, c c02Case, hello *tls.Client
 	}
 	sort.Strings(kids)
 	// policy facts
-	od, fn := c.policy != "off", c.policy == "fp" || c.policy == "fd"
+	od, fn := c.policy != "off", strings.HasPrefix(c.policy, "f")
 	allow := true
 	if od && !fn && len(e.cfg.OnDemand.hostAllowlist) > 0 {
 		_, allow = e.cfg.OnDemand.hostAllowlist[n]
@@ -350,7 +353,7 @@ func c02Enumerate() []c02Case {
 	for _, sni := range c02SNIClasses {
 		for _, st := range c02States {
 			for _, ari := range []bool{false, true} {
-				for _, pol := range []string{"fp", "fd", "ah", "am", "ae"} {
+				for _, pol := range []string{"fp", "fd", "ah", "am", "ae", "fdah", "fpam"} {
 					for _, mgr := range []string{"", "none"} {
 						for _, iss := range []string{"ok", "fail"} {
 							out = append(out, c02Case{sni: sni, state: st, policy: pol, mgr: mgr, ari: ari, iss: iss})
@@ -435,7 +438,7 @@ func TestVerifC02(t *testing.T) {
 		c := c02Case{
 			sni:    []string{"valid", "valid", "upper", "padded", "ulabel", "alabel", "empty-default", "leadingdot"}[rng.Intn(8)],
 			state:  c02States[rng.Intn(len(c02States))],
-			policy: []string{"fp", "fd", "ah", "am", "ae"}[rng.Intn(5)],
+			policy: []string{"fp", "fd", "ah", "am", "ae", "fdah", "fpam"}[rng.Intn(7)],
 			mgr:    []string{"", "", "none"}[rng.Intn(3)],
 			ari:    rng.Intn(3) == 0,
 			iss:    []string{"ok", "ok", "fail", "flaky"}[rng.Intn(4)],
@@ -459,7 +462,7 @@ func TestVerifC02(t *testing.T) {
 				switch flips[k] {
 				case 1:
 					switch c.policy {
-					case "fp", "fd":
+					case "fp", "fd", "fdah", "fpam":
 						e.permit = !e.permit
 					default:
 						n := e.certFor
